@@ -548,6 +548,7 @@ type histOp struct {
 
 var histOps = []histOp{
 	{"query", `a`}, {"query", `sum by (l) (rate(a[1m]))`}, {"query", `a + on (l) group_left b`}, {"query", `topk(1, a) + scalar(sum(b))`},
+	{"query", `h_bucket`}, {"query", `histogram_quantile(0.5, h_bucket)`},
 	{"failing", `a + on (l) b`}, {"cancelled", `sum by (l) (a)`}, {"fallback", `count_values("v", a)`}, {"append-sample", ""}, {"append-series", ""},
 }
 
@@ -562,7 +563,8 @@ type kept struct {
 func histData() []mstore.Series {
 	st, _ := core.BuildStore([]core.SeriesSpec{
 		gen.Regular(`a{l="0",m="0"}`, 0, 30000, 10, 1, 1), gen.Regular(`a{l="0",m="1"}`, 0, 30000, 10, 10, 2), gen.Regular(`a{l="1"}`, 0, 30000, 10, 100, 0.5),
-		gen.Regular(`b{l="0"}`, 0, 30000, 10, 5, 1), gen.Regular(`b{l="1"}`, 0, 30000, 10, 2.25, 3)})
+		gen.Regular(`b{l="0"}`, 0, 30000, 10, 5, 1), gen.Regular(`b{l="1"}`, 0, 30000, 10, 2.25, 3),
+		gen.Regular(`h_bucket{l="0",le="1",z="1"}`, 0, 30000, 10, 3, 3), gen.Regular(`h_bucket{l="0",le="+Inf",z="1"}`, 0, 30000, 10, 10, 10)})
 	return st.Series
 }
 
@@ -570,6 +572,9 @@ func runHistory(ops []histOp, pool string) (sym, det string, evals int64) {
 	core.SetProcs(4)
 	core.SetPool(pool)
 	st := mstore.New(histData())
+	// under the deterministic pool policies the storage also hands out the very same label
+	// slices on every call (as promql.NewStorageSeries or an in-memory store does)
+	st.ShareLabels = pool != "real"
 	eo := core.EngineOpts(core.Opts{Optimizers: "", Fallback: true}, nil)
 	long := engine.New(eo)
 	w := core.Range(10000, 30000, 12)
